@@ -74,3 +74,15 @@ impl Statement {
         ensures forall|t: int| venv_sound(*old(env), t) && stmt_sound_v(*old(self), t) ==> venv_sound(*final(env), t) && stmt_sound_v(*final(self), t)
     { unimplemented!() }
 }
+
+// ---- Cfg::unassigned_locals (iterator adapters over the declaration map and the statements): the local variables that are
+// declared and never assigned. TRUSTED semantic contract: such a variable holds the initial value zero in every execution, so
+// the claim `constant` is sound for it in every valuation in which the definition's unassigned locals are zero (`unassigned_ok`).
+pub uninterp spec fn unassigned_ok(c: Cfg, t: int) -> bool;
+impl Cfg {
+    #[verifier::external_body]
+    fn unassigned_locals(&self) -> (r: Vec<VariableName>)
+        ensures forall|t: int, k: int| #![trigger claim_ok(r@[k], dr_make(Degree::Constant, Degree::Constant), t)]
+            unassigned_ok(*self, t) && 0 <= k < r@.len() ==> claim_ok(r@[k], dr_make(Degree::Constant, Degree::Constant), t)
+    { unimplemented!() }
+}
